@@ -209,6 +209,9 @@ func (propC14) Gen(r *Rng, run uint64, tier string) *Plan {
 			spec.NMin, spec.NMax, spec.RecMax = 7, 24, 5
 		case x < 7:
 			spec.NMin, spec.NMax, spec.RecMax = 30, 70, 2
+			if r.Bool(0.35) {
+				spec.NMin, spec.NMax = 129, 160
+			}
 		case x < 12:
 			spec.RecMax = 60
 		case x < 15:
